@@ -290,4 +290,15 @@ def serveTLS (sites : List Casket.VHost.Site) (cfgs : List Cfg) (r : Casket.VHos
     | some c =>
       if strictSNIForbidden c sni.isSome (sni.getD []) (Casket.VHost.stripPort r.host) then .forbidden else .site i
 
+/-! ### one connection: handshake choice and request routing under the same name -/
+
+/-- the listener of `sites` with TLS settings `cfgs` (`cfgs[i]` belongs to `sites[i]`; its
+`hostname` is the site's `Addr.Host`, as `InspectServerBlocks` sets `TLS.Hostname`), a client that
+uses `name` both as SNI and as Host: which config governs the handshake, and what the request gets -/
+def connect (aesni : Bool) (sites : List Casket.VHost.Site) (cfgs : List Cfg) (name path : Bytes) : Obs × Served :=
+  match pipeline aesni cfgs name none with
+  | .error n => (.error n, .notFound 0)                                   -- NewServer fails: no listener
+  | .plain => (.plain, serveTLS sites cfgs ⟨name, path, 1⟩ none)          -- plaintext listener
+  | sel => (sel, serveTLS sites cfgs ⟨name, path, 1⟩ (some name))
+
 end Casket.TLSGroup
